@@ -35,8 +35,8 @@ var (
 	c15Keys   = []string{"a", "ab", "b", "\x00o", "\x00oa", ""}
 	c15Values = []string{
 		"", "x", "xy", "xz", "xyz",
-		"\x00\x00\x00\x00",   // looks like an empty chunk
-		"\x01\x00\x00\x00x", // looks like the chunk "x"
+		"\x00\x00\x00\x00",           // looks like an empty chunk
+		"\x01\x00\x00\x00x",          // looks like the chunk "x"
 		c15Long + "a", c15Long + "b", // 300 bytes, equal-length neighbours
 	}
 )
